@@ -545,5 +545,8 @@ func init() {
 		}
 		u12 := &sUniverse{ids: ids, vers: 1}
 		exploreStorage(r, "12ids-parallel-preload", u12, true, []int{0, 5, 11})
+		// the write set may hold a slab that cannot be encoded (a caller-supplied storable failing at commit time,
+		// inline or as a large value in its own slab): the commit must not report success nor empty the write set
+		r.RunTaskGroup("commits of a write set with an unencodable value (inline / own slab) x commit kind x workers", "encfail", encFailArgs())
 	}})
 }
